@@ -55,6 +55,7 @@ func (e *Engine) record(ev Event) {
 			ev.St = e.curState.clone() // the heap at the time of the call: effect conditions look through pointers in it
 		}
 		e.events = append(e.events, ev)
+		e.applyHistory(ev)
 	}
 }
 
@@ -142,6 +143,9 @@ func (e *Engine) doCall(f *frame, st *State, cc *ssa.CallCommon, args []Val, fnv
 		return e.builtin(f, st, callee, cc, args, reach, pos)
 	case *ssa.Function:
 		return e.callFunc(f, st, callee, nil, args, sig, reach, pos)
+	}
+	if af := e.ctx.aliasCallee(cc.Value); af != nil {
+		return e.callFunc(f, st, af, nil, args, sig, reach, pos)
 	}
 	if fv, ok := fnv.(FuncV); ok {
 		if fv.Nil != "" {
@@ -305,10 +309,19 @@ func (e *Engine) callFunc(f *frame, st *State, callee *ssa.Function, bind []Val,
 	case "vqExists":
 		return e.quant("exists", args[0], args[1], args[2].(FuncV), st), st, reach
 	}
+	if strings.HasPrefix(name, "vqSame[") && len(args) == 2 {
+		return BoolV{e.sameIdentity(args[0], args[1])}, st, reach
+	}
 	pkgPath := originPkgPath(callee)
 	inRepo := strings.HasPrefix(pkgPath, repoPrefix)
 	if inRepo && strings.HasPrefix(name, "spec") && callee.Parent() == nil {
 		return pack(e.specCall(callee, args, st)), st, reach
+	}
+	if inRepo && isHistPredicate(callee) {
+		if v, ok := e.pureApp(callee, args, st); ok {
+			return v, st, reach
+		}
+		panic(unsupported{"history predicate " + name + ": arguments must be scalars or structs of scalars"})
 	}
 	if v, ok := e.trustedCall(callee, args, st, reach, pos); ok {
 		e.trustedUsed[callee.String()] = true
